@@ -1,25 +1,355 @@
-//! Single-lock steps (Mutex / RwLock over the auditing raw locks), public API, key model.
+//! Single-lock steps: Mutex / RwLock over the auditing raw locks, through the public API with the
+//! key model.  Loop-free, so each harness is a complete proof of its step for every foreign-hold state.
+use core::cell::Cell;
+
 use super::util::*;
 use super::vlock::*;
 use crate::key::verif_peek as kp;
 use crate::ThreadKey;
 
+// ---------------------------------------------------------------------------------------------
+// Mutex
+
 vharness! {
-fn c03_q_mutex_lock_unlock() {
-	let m = new_m(0, 7);
-	mraw(&m).other.set(any_other_mutex());
+fn sl_q_mutex_lock_unlock_relock() {
+	let v: u8 = kani::any();
+	let m = new_m(0, v);
+	let s = mraw(&m);
+	s.other.set(any_other_mutex());
 	let key = ThreadKey::get().unwrap();
-	let g = m.lock(key);
-	assert!(mraw(&m).mine.get() == EXCL, "C04_lock_returns_holding");
+	let mut g = m.lock(key);
+	assert!(s.mine.get() == EXCL && s.other.get() == NONE, "C02_exclusive_guard_excludes_every_other_holder");
+	assert!(w().held == 1, "C04_lock_holds_the_lock_once");
 	assert!(ThreadKey::get().is_none(), "C06_no_key_while_guard_alive");
-	assert!(*g == 7, "C02_guard_reads_value");
+	assert!(*g == v, "C02_guard_reads_stored_value");
+	let nv: u8 = kani::any();
+	*g = nv;
 	let key = M::unlock(g);
-	assert!(w().held == 0, "C03_nothing_held_when_key_returned");
-	assert!(mraw(&m).balanced_and_free(), "C05_released_once");
-	// the returned key re-acquires the same lock without self-wait
+	assert!(w().held == 0, "C03_nothing_held_when_unlock_returns_the_key");
+	assert!(s.balanced_and_free(), "C05_hold_released_exactly_once_in_its_mode");
+	assert!(key_flag(), "C06_key_alive_after_unlock");
 	let g = m.lock(key);
+	assert!(*g == nv, "C02_next_section_sees_last_write");
 	drop(g);
 	assert!(w().held == 0, "C03_nothing_held_after_guard_drop");
+	assert!(s.balanced_and_free(), "C05_hold_released_exactly_once_after_drop");
 	assert!(ThreadKey::get().is_some(), "C06_key_obtainable_after_guard_drop");
 	kani::cover!(true, "end");
+}}
+
+vharness! {
+fn sl_q_mutex_try_lock() {
+	let v: u8 = kani::any();
+	let m = new_m(0, v);
+	let s = mraw(&m);
+	s.other.set(any_other_mutex());
+	let pre = s.snap();
+	let key = ThreadKey::get().unwrap();
+	match m.try_lock(key) {
+		Ok(g) => {
+			assert!(pre.other == NONE, "C13_try_lock_succeeds_only_if_free");
+			assert!(s.mine.get() == EXCL, "C04_try_lock_ok_holds_the_lock");
+			assert!(*g == v, "C02_guard_reads_stored_value");
+			assert!(ThreadKey::get().is_none(), "C06_no_key_while_guard_alive");
+			kani::cover!(true, "ok");
+			drop(g);
+		}
+		Err(k) => {
+			assert!(pre.other != NONE, "C13_try_lock_fails_only_if_held");
+			assert!(w().held == 0, "C04_failed_try_holds_nothing");
+			assert!(key_flag(), "C04_failed_try_hands_the_key_back");
+			kani::cover!(true, "fail");
+			drop(k);
+		}
+	}
+	assert!(s.snap() == pre, "C13_hold_state_as_before");
+	assert!(s.balanced_and_free(), "C05_hold_released_exactly_once_in_its_mode");
+	assert!(!w().blocking_issued, "C04_try_never_waits");
+	assert!(ThreadKey::get().is_some(), "C03_key_obtainable_after");
+	kani::cover!(true, "end");
+}}
+
+vharness! {
+fn sl_q_mutex_scoped_lock() {
+	let v: u8 = kani::any();
+	let nv: u8 = kani::any();
+	let m = new_m(0, v);
+	let s = mraw(&m);
+	s.other.set(any_other_mutex());
+	let lend: bool = kani::any();
+	let calls = Cell::new(0u8);
+	let body = |d: &mut u8| {
+		calls.set(calls.get() + 1);
+		assert!(s.mine.get() == EXCL && s.other.get() == NONE, "C02_closure_runs_only_while_held_exclusively");
+		assert!(key_flag(), "C06_no_key_obtainable_inside_scoped_call");
+		assert!(*d == v, "C02_closure_sees_stored_value");
+		*d = nv;
+		17u8
+	};
+	let mut key = ThreadKey::get().unwrap();
+	let r = if lend {
+		let r = m.scoped_lock(&mut key, body);
+		assert!(key_flag(), "C06_lent_key_still_alive");
+		drop(key);
+		r
+	} else {
+		let r = m.scoped_lock(key, body);
+		assert!(!key_flag(), "C06_owned_key_released_by_scoped_call");
+		r
+	};
+	assert!(r == 17 && calls.get() == 1, "C04_scoped_closure_called_exactly_once");
+	assert!(w().held == 0, "C03_nothing_held_when_scoped_call_returns");
+	assert!(s.balanced_and_free(), "C05_hold_released_exactly_once_in_its_mode");
+	assert!(unsafe { *crate::mutex::verif_peek::data_ptr(&m) } == nv, "C02_write_in_closure_is_stored");
+	kani::cover!(lend, "lent");
+	kani::cover!(!lend, "owned");
+}}
+
+vharness! {
+fn sl_q_mutex_scoped_try_lock() {
+	let v: u8 = kani::any();
+	let m = new_m(0, v);
+	let s = mraw(&m);
+	s.other.set(any_other_mutex());
+	let pre = s.snap();
+	let lend: bool = kani::any();
+	let calls = Cell::new(0u8);
+	let body = |d: &mut u8| {
+		calls.set(calls.get() + 1);
+		assert!(s.mine.get() == EXCL, "C02_closure_runs_only_while_held_exclusively");
+		assert!(*d == v, "C02_closure_sees_stored_value");
+		17u8
+	};
+	let mut key = ThreadKey::get().unwrap();
+	let ok = if lend {
+		let ok = m.scoped_try_lock(&mut key, body).is_ok();
+		assert!(key_flag(), "C06_lent_key_still_alive");
+		drop(key);
+		ok
+	} else {
+		match m.scoped_try_lock(key, body) {
+			Ok(_) => {
+				assert!(!key_flag(), "C06_owned_key_released_by_scoped_call");
+				true
+			}
+			Err(k) => {
+				assert!(key_flag(), "C04_failed_scoped_try_hands_the_key_back");
+				drop(k);
+				false
+			}
+		}
+	};
+	assert!(ok == (pre.other == NONE), "C13_scoped_try_lock_succeeds_iff_free");
+	assert!(calls.get() == if ok { 1 } else { 0 }, "C04_scoped_closure_called_once_iff_acquired");
+	assert!(s.snap() == pre, "C13_hold_state_as_before");
+	assert!(s.balanced_and_free(), "C05_hold_released_exactly_once_in_its_mode");
+	assert!(!w().blocking_issued, "C04_try_never_waits");
+	kani::cover!(ok, "acquired");
+	kani::cover!(!ok, "not_acquired");
+	kani::cover!(lend, "lent");
+}}
+
+// ---------------------------------------------------------------------------------------------
+// RwLock
+
+vharness! {
+fn sl_q_rwlock_write_unlock_rewrite() {
+	let v: u8 = kani::any();
+	let m = new_rw(0, v);
+	let s = rraw(&m);
+	s.other.set(any_other_rw());
+	let key = ThreadKey::get().unwrap();
+	let mut g = m.write(key);
+	assert!(s.mine.get() == EXCL && s.other.get() == NONE, "C02_exclusive_guard_excludes_every_other_holder");
+	assert!(ThreadKey::get().is_none(), "C06_no_key_while_guard_alive");
+	assert!(*g == v, "C02_guard_reads_stored_value");
+	let nv: u8 = kani::any();
+	*g = nv;
+	let key = RW::unlock_write(g);
+	assert!(w().held == 0, "C03_nothing_held_when_unlock_returns_the_key");
+	assert!(s.balanced_and_free(), "C05_hold_released_exactly_once_in_its_mode");
+	let g = m.read(key);
+	assert!(s.mine.get() == 1 && s.other.get() != EXCL, "C02_shared_guard_overlaps_only_shared_holders");
+	assert!(*g == nv, "C02_next_section_sees_last_write");
+	let key = RW::unlock_read(g);
+	assert!(w().held == 0, "C03_nothing_held_when_unlock_read_returns_the_key");
+	assert!(s.balanced_and_free(), "C05_shared_hold_released_exactly_once_in_its_mode");
+	let g = m.write(key);
+	drop(g);
+	assert!(s.balanced_and_free(), "C05_hold_released_exactly_once_after_drop");
+	assert!(ThreadKey::get().is_some(), "C06_key_obtainable_after_guard_drop");
+	kani::cover!(true, "end");
+}}
+
+vharness! {
+fn sl_q_rwlock_read_drop() {
+	let v: u8 = kani::any();
+	let m = new_rw(0, v);
+	let s = rraw(&m);
+	s.other.set(any_other_rw());
+	let key = ThreadKey::get().unwrap();
+	let g = m.read(key);
+	assert!(s.mine.get() == 1 && s.other.get() != EXCL, "C02_shared_guard_overlaps_only_shared_holders");
+	assert!(*g == v, "C02_guard_reads_stored_value");
+	assert!(ThreadKey::get().is_none(), "C06_no_key_while_guard_alive");
+	drop(g);
+	assert!(w().held == 0, "C03_nothing_held_after_guard_drop");
+	assert!(s.balanced_and_free(), "C05_shared_hold_released_exactly_once_in_its_mode");
+	assert!(ThreadKey::get().is_some(), "C06_key_obtainable_after_guard_drop");
+	kani::cover!(true, "end");
+}}
+
+vharness! {
+fn sl_q_rwlock_try_write() {
+	let v: u8 = kani::any();
+	let m = new_rw(0, v);
+	let s = rraw(&m);
+	s.other.set(any_other_rw());
+	let pre = s.snap();
+	let key = ThreadKey::get().unwrap();
+	match m.try_write(key) {
+		Ok(g) => {
+			assert!(pre.other == NONE, "C13_try_write_succeeds_only_if_free");
+			assert!(s.mine.get() == EXCL, "C04_try_write_ok_holds_the_lock");
+			assert!(*g == v, "C02_guard_reads_stored_value");
+			kani::cover!(true, "ok");
+			drop(g);
+		}
+		Err(k) => {
+			assert!(pre.other != NONE, "C13_try_write_fails_only_if_held");
+			assert!(w().held == 0, "C04_failed_try_holds_nothing");
+			assert!(key_flag(), "C04_failed_try_hands_the_key_back");
+			kani::cover!(true, "fail");
+			drop(k);
+		}
+	}
+	assert!(s.snap() == pre, "C13_hold_state_as_before");
+	assert!(s.balanced_and_free(), "C05_hold_released_exactly_once_in_its_mode");
+	assert!(!w().blocking_issued, "C04_try_never_waits");
+	assert!(ThreadKey::get().is_some(), "C03_key_obtainable_after");
+	kani::cover!(true, "end");
+}}
+
+vharness! {
+fn sl_q_rwlock_try_read() {
+	let v: u8 = kani::any();
+	let m = new_rw(0, v);
+	let s = rraw(&m);
+	s.other.set(any_other_rw());
+	let pre = s.snap();
+	let key = ThreadKey::get().unwrap();
+	match m.try_read(key) {
+		Ok(g) => {
+			assert!(pre.other != EXCL, "C13_try_read_succeeds_only_if_not_held_exclusively");
+			assert!(s.mine.get() == 1, "C04_try_read_ok_holds_the_lock_shared");
+			assert!(*g == v, "C02_guard_reads_stored_value");
+			kani::cover!(true, "ok");
+			drop(g);
+		}
+		Err(k) => {
+			assert!(pre.other == EXCL, "C13_try_read_fails_only_if_held_exclusively");
+			assert!(w().held == 0, "C04_failed_try_holds_nothing");
+			assert!(key_flag(), "C04_failed_try_hands_the_key_back");
+			kani::cover!(true, "fail");
+			drop(k);
+		}
+	}
+	assert!(s.snap() == pre, "C13_hold_state_as_before");
+	assert!(s.balanced_and_free(), "C05_shared_hold_released_exactly_once_in_its_mode");
+	assert!(!w().blocking_issued, "C04_try_never_waits");
+	assert!(ThreadKey::get().is_some(), "C03_key_obtainable_after");
+	kani::cover!(true, "end");
+}}
+
+vharness! {
+fn sl_q_rwlock_scoped_write_read() {
+	let v: u8 = kani::any();
+	let nv: u8 = kani::any();
+	let m = new_rw(0, v);
+	let s = rraw(&m);
+	s.other.set(any_other_rw());
+	let lend: bool = kani::any();
+	let calls = Cell::new(0u8);
+	let wbody = |d: &mut u8| {
+		calls.set(calls.get() + 1);
+		assert!(s.mine.get() == EXCL && s.other.get() == NONE, "C02_closure_runs_only_while_held_exclusively");
+		assert!(key_flag(), "C06_no_key_obtainable_inside_scoped_call");
+		assert!(*d == v, "C02_closure_sees_stored_value");
+		*d = nv;
+	};
+	let rbody = |d: &u8| {
+		calls.set(calls.get() + 1);
+		assert!(s.mine.get() == 1 && s.other.get() != EXCL, "C02_shared_closure_overlaps_only_shared_holders");
+		assert!(*d == nv, "C02_next_section_sees_last_write");
+	};
+	let mut key = ThreadKey::get().unwrap();
+	if lend {
+		m.scoped_write(&mut key, wbody);
+		assert!(w().held == 0, "C03_nothing_held_when_scoped_call_returns");
+		m.scoped_read(&mut key, rbody);
+		assert!(key_flag(), "C06_lent_key_still_alive");
+		drop(key);
+	} else {
+		m.scoped_write(key, wbody);
+		assert!(!key_flag(), "C06_owned_key_released_by_scoped_call");
+		assert!(w().held == 0, "C03_nothing_held_when_scoped_call_returns");
+		let key = ThreadKey::get().unwrap();
+		m.scoped_read(key, rbody);
+		assert!(!key_flag(), "C06_owned_key_released_by_scoped_read");
+	}
+	assert!(calls.get() == 2, "C04_scoped_closure_called_exactly_once");
+	assert!(w().held == 0, "C03_nothing_held_when_scoped_read_returns");
+	assert!(s.balanced_and_free(), "C05_hold_released_exactly_once_in_its_mode");
+	kani::cover!(lend, "lent");
+	kani::cover!(!lend, "owned");
+}}
+
+vharness! {
+fn sl_q_rwlock_scoped_try() {
+	let v: u8 = kani::any();
+	let m = new_rw(0, v);
+	let s = rraw(&m);
+	s.other.set(any_other_rw());
+	let pre = s.snap();
+	let write: bool = kani::any();
+	let calls = Cell::new(0u8);
+	let key = ThreadKey::get().unwrap();
+	let ok = if write {
+		match m.scoped_try_write(key, |d: &mut u8| {
+			calls.set(calls.get() + 1);
+			assert!(s.mine.get() == EXCL, "C02_closure_runs_only_while_held_exclusively");
+			assert!(*d == v, "C02_closure_sees_stored_value");
+		}) {
+			Ok(()) => true,
+			Err(k) => {
+				assert!(key_flag(), "C04_failed_scoped_try_hands_the_key_back");
+				drop(k);
+				false
+			}
+		}
+	} else {
+		match m.scoped_try_read(key, |d: &u8| {
+			calls.set(calls.get() + 1);
+			assert!(s.mine.get() == 1, "C02_closure_runs_only_while_held_shared");
+			assert!(*d == v, "C02_closure_sees_stored_value");
+		}) {
+			Ok(()) => true,
+			Err(k) => {
+				assert!(key_flag(), "C04_failed_scoped_try_hands_the_key_back");
+				drop(k);
+				false
+			}
+		}
+	};
+	assert!(!key_flag(), "C06_key_released");
+	let expect = if write { pre.other == NONE } else { pre.other != EXCL };
+	assert!(ok == expect, "C13_scoped_try_succeeds_iff_grantable");
+	assert!(calls.get() == if ok { 1 } else { 0 }, "C04_scoped_closure_called_once_iff_acquired");
+	assert!(s.snap() == pre, "C13_hold_state_as_before");
+	assert!(s.balanced_and_free(), "C05_hold_released_exactly_once_in_its_mode");
+	assert!(!w().blocking_issued, "C04_try_never_waits");
+	kani::cover!(ok && write, "w_ok");
+	kani::cover!(!ok && write, "w_fail");
+	kani::cover!(ok && !write, "r_ok");
+	kani::cover!(!ok && !write, "r_fail");
 }}
